@@ -1,8 +1,15 @@
 package payment
 
 import (
+	"github.com/vipnode/vipnode/v2/internal/verifapi"
 	"github.com/vipnode/vipnode/v2/pool/store"
+	"github.com/vipnode/vipnode/v2/pool/store/badger"
 	"github.com/vipnode/vipnode/v2/pool/store/memory"
 )
 
-func newVerifStore() store.Store { return memory.New() }
+func newVerifStore() store.Store {
+	if verifapi.Param("driver", 0) == 1 {
+		return badger.VerifOpen()
+	}
+	return memory.New()
+}
